@@ -5,7 +5,7 @@ import os
 from collections import defaultdict
 
 from .guards import (Cmp, CallResult, Field, check_guard, prov, op_prov, bool_condition, bool_edge_value, switch_edges,
-                     ok_block_after, _all_paths_hit, succ_for_value)
+                     ok_block_after, _all_paths_hit, succ_for_value, follow_const_bool)
 from .lib import fn_key, op_local, place_local, place_fields, rvalue_places, last_seg, strip_generics, AnchorError
 
 EXPLANATION = (
@@ -111,7 +111,15 @@ def run(ctx):
         for bb, t in da.switches():
             info, _ = bool_condition(da, bb)
             if info and info[0] == "disc" and info[2].endswith("PanicState") and da.dominates(bb, pd[0].bb):
-                ok = True
+                adt = F.adts.get(info[2])
+                idx = [v["name"] for v in adt["variants"]].index("EndsWithPanic") if adt else None
+                if idx is None:
+                    continue
+                yes = follow_const_bool(da, succ_for_value(da, bb, idx))
+                others = [follow_const_bool(da, s) for s in da.succ(bb) if s != succ_for_value(da, bb, idx) and not da.is_unreachable_block(s)]
+                # the registration is reachable from the EndsWithPanic edge only
+                ok = pd[0].bb in (da.reachable_blocks(yes, avoid={bb}) | {yes}) and yes not in others and not any(
+                    pd[0].bb in (da.reachable_blocks(s, avoid={bb}) | {s}) for s in others)
     ctx.ob("R8.2", "drop_aux:panic-destruct-only-under-EndsWithPanic", ok, "panic_destruct is considered only for PanicState::EndsWithPanic", da.where())
     vs = F.find1(BC, "Analyzer", name="visit_stmt")
     rep = {c.bb for c in calls_named(vs, "report_by_location")}
